@@ -417,7 +417,7 @@ def emit_fn(b, out, meta, unit_rw, unit_name):
         out.extend(spec.split('\n'))
     out.extend(body.split('\n'))
     end_line = len(out)
-    rec = dict(name=newname, repo_file=rel, repo_line=f['line'], ctx=ctx, sha256=f['sha256'],
+    rec = dict(name=newname, repo_file=rel, repo_line=f['line'], repo_end_line=f['line'] + f['body'].count('\n') + f['sig'].count('\n'), ctx=ctx, sha256=f['sha256'],
                gen_lines=[start_line, end_line], canary=None, desc=b.d['desc'] or norm_ws(spec)[:300],
                props=b.d['props'], rewrites=nrw, key='%s::%s%s' % (unit_name, qual, newname), qual=qual)
     if not b.d['nocanary']:
